@@ -85,6 +85,11 @@ pub struct BuildCfg {
     /// 1..=3 as chrono::DateTime with the fixed offsets +05:30 / -08:00 / +14:00, 4 as SystemTime
     #[serde(default)]
     pub time_form: u8,
+    /// rewrite the source files (same length / longer / shorter / removed) between the last
+    /// with_file() call and build(): whatever the builder then packages must be consistent with
+    /// itself (only self-consistency is judged for such configurations)
+    #[serde(default)]
+    pub disturb_sources: bool,
 }
 
 /// the instant `secs` in the form selected by `form` (see BuildCfg::time_form)
@@ -158,6 +163,25 @@ pub fn materialize_sources(cfg: &BuildCfg, dir: &Path) -> Vec<PathBuf> {
         out.push(p);
     }
     out
+}
+
+/// see BuildCfg::disturb_sources
+pub fn disturb(sources: &[PathBuf]) {
+    use std::os::unix::fs::PermissionsExt;
+    for (i, p) in sources.iter().enumerate() {
+        let _ = std::fs::set_permissions(p, std::fs::Permissions::from_mode(0o644));
+        let Ok(mut data) = std::fs::read(p) else { continue };
+        match i % 4 {
+            0 => data.iter_mut().for_each(|b| *b ^= 0xff),
+            1 => data.extend_from_slice(b"appended after with_file()"),
+            2 => data.truncate(data.len() / 2),
+            _ => {
+                let _ = std::fs::remove_file(p);
+                continue;
+            }
+        }
+        let _ = std::fs::write(p, &data);
+    }
 }
 
 pub fn dep_of(d: &DepCfg) -> Dependency {
@@ -415,6 +439,9 @@ fn scalar_setter(cfg: &BuildCfg, b: PackageBuilder, i: usize) -> PackageBuilder 
 pub fn build(cfg: &BuildCfg, dir: &Path) -> Result<rpm::Package, rpm::Error> {
     let sources = materialize_sources(cfg, dir);
     let b = builder_for(cfg, &sources)?;
+    if cfg.disturb_sources {
+        disturb(&sources);
+    }
     rpm::verif_hooks::set_force_large_files(cfg.large_files);
     let r = b.build();
     rpm::verif_hooks::set_force_large_files(false);
